@@ -1,6 +1,7 @@
 //! `mc <property> [--tier quick|thorough] [--shard i/n] [--out file] [--replay file]`
 use vkit::report::{Args, Report};
 
+mod c01;
 mod c02;
 mod c03;
 mod c04;
@@ -39,6 +40,7 @@ fn main() {
         "c19" => c19::run(&args, &mut rep),
         "c18-smoke" => std::process::exit(c18::smoke_child(args.extra.first().map_or("", String::as_str))),
         "smoke" => smoke::run(&args, &mut rep),
+        "c01" => c01::run(&args, &mut rep),
         "c02" => c02::run(&args, &mut rep),
         "c03" => c03::run(&args, &mut rep),
         "c04" => c04::run(&args, &mut rep),
